@@ -6,10 +6,12 @@ C44 — the WebDAV memory filesystem behaves like the native hierarchical filesy
 Two models over the same state (tree of names + open handles): `FS.Mem.step` (memFS / memFile as
 written) and `FS.Os.step` (what `webdav.Dir` shows on Linux).  `divClass` names, per state and
 operation, the reason why the two may still differ:
-  * three *divergence classes* left unrepaired (known findings): a directory opened for writing
+  * four *divergence classes* left unrepaired (known findings): a directory opened for writing
     (`dirWrite` — the package's own PROPPATCH opens collections `O_RDWR`), a directory opened read-only
     with `O_CREATE`/`O_TRUNC` (`dirCreateTrunc`), `O_RDONLY|O_TRUNC` on a file (`rdonlyTrunc`,
     unspecified by POSIX, Linux truncates);
+  * `readdirSnapshot` (known finding): the first Readdir on a directory handle opened before the
+    directory changed — memFile lists its open-time snapshot (documented design, copyFiles relies on it);
   * `allowedRenameOverExisting` — the exception the contract grants (renaming over an existing entry);
   * `unspecifiedSeekDir` — Seek on a directory handle (filesystem dependent, not compared).
 `agree_step` / `agree_run` (= `holds_partial`): outside these classes the two models return the same
@@ -29,6 +31,7 @@ inductive Class where
   | dirWrite              -- OpenFile(dir, O_WRONLY|O_RDWR): memFS ok, native EISDIR
   | dirCreateTrunc        -- OpenFile(dir, O_CREATE|O_TRUNC, read-only): memFS ok, native EISDIR
   | rdonlyTrunc           -- OpenFile(file, O_RDONLY|O_TRUNC): native truncates, memFS does not
+  | readdirSnapshot       -- first Readdir after the directory changed: memFS lists it as of OpenFile, native as of now
   | allowedRenameOverExisting
   | unspecifiedSeekDir
   | unspecifiedOffsetLimit -- offsets beyond the native filesystem's maximum (memFS: up to what a slice can hold)
@@ -56,6 +59,11 @@ def divClass (s : State) : Op → Option Class
     | some hd =>
       if (if hd.app then (fileData s hd).length else hd.pos) + data.length > osMaxOffset
       then some .unspecifiedOffsetLimit else none
+  | .readdir h _ =>
+    match s.handles[h]? with
+    | none => none
+    | some hd =>
+      if hd.isDir && !hd.listed && decide (liveKids s hd ≠ some hd.kids) then some .readdirSnapshot else none
   | .rename _ b => if (get s.tree b).isSome then some .allowedRenameOverExisting else none
   | _ => none
 
@@ -183,7 +191,23 @@ theorem agree_step (s : State) (op : Op) (h : divClass s op = none) : Mem.step s
         unfold osMaxOffset at hlim; unfold memMaxAlloc; omega
       simp [hlim, hlim2]
   | read k n => rfl
-  | readdir k count => rfl
+  | readdir k count =>
+    simp only [divClass] at h
+    simp only [Mem.step, Os.step]
+    cases hk : s.handles[k]? with
+    | none => rfl
+    | some hd =>
+      simp only [hk] at h ⊢
+      cases hdir : hd.isDir with
+      | false => simp
+      | true =>
+        simp only [hdir, Bool.not_true, Bool.false_eq_true, if_false, Bool.true_and] at h ⊢
+        cases hl : hd.listed with
+        | true => simp
+        | false =>
+          have : liveKids s hd = some hd.kids := by
+            cases hx : decide (liveKids s hd ≠ some hd.kids) <;> simp_all
+          simp [this]
   | removeAll p => simp only [Mem.step, Os.step, removeAll_agree]
   | «open» p f =>
     simp only [divClass] at h
@@ -271,6 +295,10 @@ theorem diverge_dirCreateTrunc : Diverges [.mkdir nA] (.open nA (fl 0 false true
 theorem diverge_rdonlyTrunc :
     Diverges [.open nA rwCreate, .write 0 [1, 2]] (.open nA (fl 0 false false false false true)) .rdonlyTrunc := by
   decide
+
+/-- The open-time snapshot: a directory opened before `Mkdir /b` still lists only `/a` on memFS. -/
+theorem diverge_readdirSnapshot :
+    Diverges [.mkdir nA, .open [] ro, .mkdir nB] (.readdir 0 0) .readdirSnapshot := by decide
 
 /-! Former divergences, repaired upstream: the two filesystems now agree on the old witnesses. -/
 
